@@ -31,7 +31,22 @@ RULES_C07 = [
      "the event is stamped with the clock read AFTER the latency wait; the name bound before the yield is only the fallback when no clock is attached (then no simulated time exists)"),
     (lambda f, q, k, d: "async_server" in f and "result_events" in d, "Benign",
      "io_wrapper re-stamps every event of result_events with the current clock before returning them (repair of finding C07-async-server-stale-queue-event)"),
+    (lambda f, q, k, d: k == "stale_now" and "soft_ttl_cache" in f and "_maybe_start_refresh" in d, "Benign",
+     "the refresh event is handed to the engine as a side effect of the very next yield (yield latency, side_effects), i.e. it is scheduled at the instant it was stamped"),
+    (lambda f, q, k, d: k == "event_time" and q.endswith(".on_complete") and d == "time=finish_time", "Benign",
+     "completion hook: the engine calls hooks with the finishing event's own time, which is the clock at that delivery (C01 clock = timestamp, C02 hooks run at finish)"),
+    (lambda f, q, k, d: k == "event_time" and q.split(".")[-1] in ("start_events", "start_event", "generate_events", "schedule_first_heartbeat", "start_warming",
+                                                                   "schedule_fault", "schedule_heal", "get_events")
+        or (k == "event_time" and "stimulus.py" in f), "Benign",
+     "pre-run / source schedule at absolute times taken from the configuration (fault windows, appointments, stimuli, provider ticks): created before the run or by a Source for its own next tick, never relative to a stale clock"),
+    (lambda f, q, k, d: k == "event_time" and "rate_limiter" in f, "Benign",
+     "`now` is the parameter every caller binds to event.time of the event being handled (= the clock at that delivery); poll_time = now + wait with wait >= 1 ns (C10 model and theorems; repaired by 16398cc / 2b53532)"),
+    (lambda f, q, k, d: k == "event_time" and "perishable_inventory" in f, "Benign", "now := self.now read in the same (non-generator) handler invocation; interval is a positive configuration value"),
+    (lambda f, q, k, d: k == "event_time" and "shift_schedule" in f, "Benign", "next_transition_after(self.now) returns a boundary strictly after the current time or None"),
+    (lambda f, q, k, d: k == "event_time" and "message_queue" in f and "now.to_seconds() + self._redelivery_delay" in d, "Benign",
+     "now := self._clock.now if self._clock else Instant.Epoch read in the same call; redelivery_delay >= 0 (C19 model: redelivery is stamped with the clock at the request plus the delay)"),
     (lambda f, q, k, d: k == "stale_now", "Review", "to be classified by replay"),
+    (lambda f, q, k, d: k == "event_time", "Review", "to be classified by reading the code"),
     (lambda f, q, k, d: k == "spin", "Review", "to be classified by replay"),
     (lambda f, q, k, d: k == "neg_time", "Review", "to be classified by replay"),
 ]
